@@ -332,7 +332,7 @@ def prepare(tier, seed):
                 if dd['verdict'] == 'ok' and dd['model_verdict'] != 'ok':
                     # refused by the rules (model), expanded by the real front end
                     if len(ill_suspects) < 12:
-                        ill_suspects.append((c.get('rule') or ('refused by the rules: ' + dd['model'][:80]), c['def']))
+                        ill_suspects.append((c.get('rule') or ('refused by the rules: ' + dd['model'][:80]), c['def'], dd['id']))
                     continue
                 if dd['stream'] == 'mut':
                     continue
